@@ -28,6 +28,26 @@ variable {K : Type} [Field K] [LinearOrder K] [IsStrictOrderedRing K]
     else
       [(-1 : K)]
 
+/-- the single value returned -/
+@[gen_def] def line_tOfPoint_v (sqrt : K → K) (p0x p0y p1x p1y qx qy : K) : K :=
+  (line_tOfPoint sqrt p0x p0y p1x p1y qx qy).headD 0
+
+
+/-- Line.tOfPoint(point, its_on_the_line_i_swear=True) -/
+
+@[gen_def] def line_tOfPoint_sworn (p0x p0y p1x p1y qx qy : K) : List K :=
+  if isclose p1x p0x ((1 : K) / 1000000000) (0 : K) then
+    if isclose p1y p0y ((1 : K) / 1000000000) (0 : K) then
+      [(-1 : K)]
+    else
+      [((qy - p0y) / (p1y - p0y))]
+  else
+    [((qx - p0x) / (p1x - p0x))]
+
+/-- the single value returned -/
+@[gen_def] def line_tOfPoint_sworn_v (p0x p0y p1x p1y qx qy : K) : K :=
+  (line_tOfPoint_sworn p0x p0y p1x p1y qx qy).headD 0
+
 
 end Gen
 
@@ -35,4 +55,5 @@ end Gen
 def Gen.dispatchLookup (tbl : FnTable) (name : String) (a : List ℚ) : Option (List ℚ) :=
   match name with
   | "line_tOfPoint" => if a.length = 6 then some (Gen.line_tOfPoint (tbl.sqrt) (a.getD 0 0) (a.getD 1 0) (a.getD 2 0) (a.getD 3 0) (a.getD 4 0) (a.getD 5 0)) else none
+  | "line_tOfPoint_sworn" => if a.length = 6 then some (Gen.line_tOfPoint_sworn (a.getD 0 0) (a.getD 1 0) (a.getD 2 0) (a.getD 3 0) (a.getD 4 0) (a.getD 5 0)) else none
   | _ => none
